@@ -49,6 +49,12 @@ def plan(tier):
             if tier == 'thorough' or op == 1:
                 qs.append(Q('finding:%s:%s:midbatch' % (name, oname), 'c06.c', 'KNOWN FINDING witness: %s in the middle of the vector batch - the generic back end continues with the next block, the vector back end with the next batch' % oname,
                             defs=dict(base, OB_REKEY=1, OP=op, KLEN=(16 if c == 3 and op == 1 else (8 if c == 3 else blk)), A=0, W=1), ll=ll, timeout=900, fsarray=1300, expect='fail', kf=KF, witness=False))
+    # parallel ECB: every back end is proved equal to block-by-block single-block processing (C07's driver and batch obligations),
+    # hence to every other back end; those obligations are part of this check as well
+    spec = importlib.util.spec_from_file_location('C07', os.path.join(os.path.dirname(os.path.abspath(__file__)), 'C07.py')); m7 = importlib.util.module_from_spec(spec); spec.loader.exec_module(m7)
+    for q in m7.plan(tier)['queries']:
+        if q.name.startswith('driver:') or (q.name.startswith('batch:') and 'mantis' not in q.name):
+            q.name = 'parallel-' + q.name; q.group = 'parallel'; qs.append(q)
     return dict(queries=qs, level='model_checking', pre=[pre_layout, pre_ll_diff],
                 functions=['generic CTR back ends + dispatchers (native)', 'skinny128_ctr_vec128_*, skinny128_ctr_vec256_*, skinny64_ctr_vec128_*, mantis_ctr_vec128_* (clang IR)', 'parallel ECB: by C07 every back end equals block-by-block ECB, hence each other'],
                 bounds={'method': 'one-step bisimulation from arbitrary related states per operation; histories by induction (meta-step)', 'encrypt grid': 'positions (block index inside the vector batch, bytes used) x sizes as listed per query; 1-round arbitrary schedule (block functions at full depth: C05 deep, C07 batch)',
